@@ -185,14 +185,15 @@ func realLit(r *big.Rat) string {
 	return s
 }
 
-// at is the element index "offset + i". It is kept as an uninterpreted function with a
-// defining axiom so that quantifier patterns can match it syntactically (arithmetic
-// normalisation would otherwise destroy the shape of offset + index terms).
+// at is the element index "offset + i".
 func at(off, i string) string {
 	if off == "0" {
 		return i
 	}
-	return app("at", off, i)
+	if i == "0" {
+		return off
+	}
+	return app("+", off, i)
 }
 
 // addc adds a small constant to a term, folding constants.
@@ -206,4 +207,4 @@ func addc(t string, c int64) string {
 	return app("+", t, num(c))
 }
 
-const atAxiom = "(declare-fun at (Int Int) Int)\n(assert (forall ((a!a Int) (b!a Int)) (! (= (at a!a b!a) (+ a!a b!a)) :pattern ((at a!a b!a)))))\n"
+const atAxiom = ""
